@@ -610,6 +610,43 @@ func (f *Family) Prefill(par int) error {
 	return first
 }
 
+// PrefillAll warms the gc results of every batch of every family with at most
+// par gc builds at a time.
+func PrefillAll(fams []*Family, par int) error {
+	type job struct {
+		f  *Family
+		bi uint64
+	}
+	var jobs []job
+	for _, f := range fams {
+		nb := (f.Size + f.bs() - 1) / f.bs()
+		for bi := uint64(0); bi < nb; bi++ {
+			jobs = append(jobs, job{f, bi})
+		}
+	}
+	sem := make(chan struct{}, par)
+	var wg sync.WaitGroup
+	var mu sync.Mutex
+	var first error
+	for _, j := range jobs {
+		wg.Add(1)
+		sem <- struct{}{}
+		go func(j job) {
+			defer wg.Done()
+			defer func() { <-sem }()
+			if b := j.f.batchOf(j.bi * j.f.bs()); b.err != "" {
+				mu.Lock()
+				if first == nil {
+					first = errors.New(j.f.Name + ": " + b.err)
+				}
+				mu.Unlock()
+			}
+		}(j)
+	}
+	wg.Wait()
+	return first
+}
+
 func tailStr(s string, n int) string {
 	if len(s) <= n {
 		return s
